@@ -335,6 +335,10 @@ func genCaseX(r *prng.R, id string, level int, big bool, deep bool) proto.Case {
 			lim = " lim=" + strings.Join(ids, ",")
 		}
 		ops[startIdx] += lim
+		// request-rewriting processors before / after the Limiter in the user flows
+		if fv := r.Intn(4); fv > 0 {
+			ops[startIdx] += fmt.Sprintf(" fv=%d", fv)
+		}
 	}
 	return proto.Case{ID: id, Ops: ops}
 }
